@@ -665,7 +665,7 @@ func c08Comments(c editCase) string {
 }
 
 func runC08(c *hx.Ctx) {
-	for i := 0; i < c.N(3500); i++ {
+	for i := 0; i < c.N(4500); i++ {
 		ec := editDraw(c, i%5 == 0)
 		run := editRecord(c, ec, "syntax")
 		if run == nil {
